@@ -33,8 +33,9 @@ Record state := mk {
 Definition init : state :=
   {| window := []; largest := 0; delivered := []; acked := []; failures := 0; closed := false |}.
 
-(* result codes of one datagram: 0 processed, 1 unprotect failed, 2 decrypt failed, 3 duplicate,
-   4 too old, 5 connection closed *)
+(* result codes of one datagram: 0 processed, 1 dropped before decryption (not a 1-RTT packet /
+   header protection sample missing), 2 decrypt failed, 3 duplicate, 4 too old, 5 connection already
+   closed, 6 decrypt failed and the connection is closed with AEAD_LIMIT_REACHED *)
 Section Rx.
   Variable D : Type.                                                   (* datagrams *)
   Variable unprot : D -> option (N * nat * list N * list N).           (* truncated pn, pn len, header, ciphertext *)
@@ -42,28 +43,27 @@ Section Rx.
   Variable aead_open : N -> list N -> list N -> option (list N).       (* packet number (nonce), header (aad), ciphertext *)
   Variable integrity_limit : N.
 
+  Definition bump (s : state) (close : bool) : state :=
+    {| window := window s; largest := largest s; delivered := delivered s; acked := acked s;
+       failures := failures s + 1; closed := close |}.
+
   Definition rx (s : state) (d : D) : state * (Z * option (N * list N)) :=
     if closed s then (s, (5%Z, None)) else
     match unprot d with
     | None => (s, (1%Z, None))
     | Some (tpn, n, hdr, ct) =>
         let pn := expand (largest s) tpn n in
-        (* key_set.decrypt_packet: decrypt first; count failures; close at the integrity limit *)
+        (* key_set.decrypt_packet: decrypt first and count the failure; its AEAD_LIMIT_REACHED error
+           is returned by validate_and_decrypt_packet only after the duplicate check *)
         let dec := aead_open pn hdr ct in
-        let s1 := match dec with
-                  | Some _ => s
-                  | None => {| window := window s; largest := largest s; delivered := delivered s; acked := acked s;
-                               failures := failures s + 1;
-                               closed := integrity_limit <=? failures s + 1 |}
-                  end in
-        if closed s1 then (s1, (2%Z, None)) else
-        (* is_duplicate after decryption *)
+        let s1 := match dec with Some _ => s | None => bump s false end in
         match sw_check (window s) pn with
         | WDup => (s1, (3%Z, None))
         | WOld => (s1, (4%Z, None))
         | WOk =>
             match dec with
-            | None => (s1, (2%Z, None))
+            | None =>
+                if integrity_limit <=? failures s + 1 then (bump s true, (6%Z, None)) else (s1, (2%Z, None))
             | Some p =>
                 (* handle_cleartext_payload, then on_processed_packet: ack manager + window insert *)
                 ({| window := pn :: window s; largest := N.max (largest s) pn;
@@ -149,110 +149,157 @@ Definition reset_judge (c o : list Z) : bool :=
   end.
 
 (* ---- harness protocol (component rxpipe) -------------------------------------------------------
-   case = seed :: dcid_len :: ops
+   case = seed :: dcid_len :: integrity_limit :: ops
      0 pn n plen b1..b_plen : the peer seals a packet (packet number, pn length, payload); no output
      1 k                    : packet #k is delivered unmodified
      2 k pos x              : packet #k with byte pos XORed with x (1..255)
      3 k newlen             : packet #k truncated
-     4 k j cut cut2         : first cut bytes of #k followed by #j from cut2 on
+     4 k j cut cut2         : first cut (>= 1) bytes of #k followed by #j from cut2 on
      5 len b1..b_len        : arbitrary bytes
-   (the generator keeps every garbled datagram different from every sealed packet)
+   (the generator keeps every garbled datagram different from every sealed packet; garbled
+   datagrams whose decoded packet number is not determined by the case -- pn bytes, sample or the
+   pn-length bits touched, splices, arbitrary bytes -- only occur in cases whose integrity limit is
+   out of reach)
    output per delivery: unmodified copy: result code, and when processed (0): pn, payload length, payload;
-                        anything else: 1 when dropped (whatever the reason), full dump when processed;
-                        9 when k does not name a sealed packet.
+                        anything else: 1 when dropped, 6 when dropped and the connection is closed
+                        with AEAD_LIMIT_REACHED, 5 when the connection was closed before, full dump
+                        if it were processed; 9 when k does not name a sealed packet.
    The executable instance is the ideal AEAD itself: a datagram is either a byte-identical copy of a
    sealed packet (its "ciphertext" is the tuple pn :: payload, which opens iff it is in the table)
    or something else, which never opens. *)
-Inductive item := ISkip | IGen (pn : N) (pay : list N) | IForged.
+Inductive item := ISkip | IGen (pn : N) (pay : list N) | IForged (r : option N).
+(* IForged None: dropped before decryption; IForged (Some pn): reaches decryption with that packet number *)
 
-Fixpoint parse (fuel : nat) (c : list Z) (tbl : list (N * list N)) : list item :=
+Definition pkt_len (hlen : nat) (e : N * nat * list N) : nat :=
+  let '(_, n, pay) := e in (hlen + n + length pay + 16)%nat.
+
+Fixpoint parse (fuel hlen : nat) (c : list Z) (tbl : list (N * nat * list N)) : list item :=
   match fuel with
   | O => []
   | S f =>
       match c with
       | 0%Z :: pn :: n :: plen :: r =>
           let k := Z.to_nat plen in
-          parse f (skipn k r) (tbl ++ [(zN pn, map zN (firstn k r))])
+          parse f hlen (skipn k r) (tbl ++ [(zN pn, Nat.max 1 (Nat.min 4 (Z.to_nat n)), map zN (firstn k r))])
       | 1%Z :: k :: r =>
-          (match nth_error tbl (Z.to_nat k) with Some (pn, pay) => IGen pn pay | None => ISkip end) :: parse f r tbl
-      | 2%Z :: k :: _ :: _ :: r =>
-          (match nth_error tbl (Z.to_nat k) with Some _ => IForged | None => ISkip end) :: parse f r tbl
-      | 3%Z :: k :: _ :: r =>
-          (match nth_error tbl (Z.to_nat k) with Some _ => IForged | None => ISkip end) :: parse f r tbl
-      | 4%Z :: k :: j :: _ :: _ :: r =>
+          (match nth_error tbl (Z.to_nat k) with Some (pn, _, pay) => IGen pn pay | None => ISkip end) :: parse f hlen r tbl
+      | 2%Z :: k :: pos :: x :: r =>
+          (match nth_error tbl (Z.to_nat k) with
+           | Some e =>
+               let len := pkt_len hlen e in
+               let p := Nat.modulo (Z.to_nat pos) len in
+               IForged (if Nat.eqb p 0 && negb (N.land (zN x) 192 =? 0) then None else Some (fst (fst e)))
+           | None => ISkip end) :: parse f hlen r tbl
+      | 3%Z :: k :: newlen :: r =>
+          (match nth_error tbl (Z.to_nat k) with
+           | Some e =>
+               let nl := Nat.min (Z.to_nat newlen) (pkt_len hlen e) in
+               IForged (if Nat.leb (hlen + 20) nl then Some (fst (fst e)) else None)
+           | None => ISkip end) :: parse f hlen r tbl
+      | 4%Z :: k :: j :: cut :: cut2 :: r =>
           (match nth_error tbl (Z.to_nat k), nth_error tbl (Z.to_nat j) with
-           | Some _, Some _ => IForged | _, _ => ISkip end) :: parse f r tbl
-      | 5%Z :: len :: r => IForged :: parse f (skipn (Z.to_nat len) r) tbl
+           | Some e, Some e' =>
+               let c1 := Nat.min (Z.to_nat cut) (pkt_len hlen e) in
+               let c2 := Nat.min (Z.to_nat cut2) (pkt_len hlen e') in
+               let res := (c1 + (pkt_len hlen e' - c2))%nat in
+               IForged (if Nat.leb 1 c1 && Nat.leb (hlen + 20) res then Some 0 else None)
+           | _, _ => ISkip end) :: parse f hlen r tbl
+      | 5%Z :: len :: r =>
+          let b := firstn (Z.to_nat len) r in
+          IForged (if Nat.leb (hlen + 20) (length b) && (N.land (zN (hd 0%Z b)) 192 =? 64) then Some 0 else None)
+          :: parse f hlen (skipn (Z.to_nat len) r) tbl
       | _ => []
       end
   end.
 
-Definition items_of (c : list Z) : list item := parse (length c) (skipn 2 c) [].
+Definition case_hlen (c : list Z) : nat := S (Nat.min (Z.to_nat (nth 1 c 0%Z)) 20).
+Definition case_limit (c : list Z) : N := zN (nth 2 c 0%Z).
+Definition items_of (c : list Z) : list item := parse (length c) (case_hlen c) (skipn 3 c) [].
 
 (* symbolic datagrams of the executable instance *)
-Inductive sdg := SCopy (pn : N) (pay : list N) | SOther.
+Inductive sdg := SCopy (pn : N) (pay : list N) | SOther (r : option N).
 
+Definition x_seal (n : N) (a p : list N) : list N := n :: p.
 Definition x_unprot (d : sdg) : option (N * nat * list N * list N) :=
   match d with
-  | SCopy pn pay => Some (pn, 4%nat, [], pn :: pay)
-  | SOther => Some (0, 4%nat, [], [])
+  | SCopy pn pay => Some (pn, 4%nat, [], x_seal pn [] pay)
+  | SOther (Some pn) => Some (pn, 4%nat, [], [])
+  | SOther None => None
   end.
 Definition x_expand (lg t : N) (n : nat) : N := t.
+Definition in_table (tbl : list (N * list N)) (pn : N) (p : list N) : bool :=
+  existsb (fun e => (fst e =? pn) && eqb_bytes (snd e) p) tbl.
 Definition x_open (tbl : list (N * list N)) (pn : N) (hdr ct : list N) : option (list N) :=
-  match ct with
-  | c0 :: p => if (c0 =? pn) && existsb (fun e => (fst e =? pn) && eqb_bytes (snd e) p) tbl then Some p else None
-  | [] => None
+  match hdr, ct with
+  | [], c0 :: p => if (c0 =? pn) && in_table tbl pn p then Some p else None
+  | _, _ => None
   end.
-Definition x_limit : N := 18446744073709551616.
+(* everything the peer sealed, as (pn, header, payload) *)
+Definition x_sealed (tbl : list (N * list N)) : list (N * list N * list N) :=
+  map (fun e => (fst e, [], snd e)) tbl.
 
 Definition dump (r : Z * option (N * list N)) : list Z :=
   match r with
   | (0%Z, Some (pn, p)) => 0%Z :: Nz pn :: Z.of_nat (length p) :: map Nz p
   | (code, _) => [code]
   end.
+Definition dump_forged (r : Z * option (N * list N)) : list Z :=
+  match r with
+  | (0%Z, Some _) => dump r
+  | (5%Z, _) => [5%Z]
+  | (6%Z, _) => [6%Z]
+  | _ => [1%Z]
+  end.
 
-Fixpoint run_items (tbl : list (N * list N)) (s : state) (its : list item) : list Z :=
+Fixpoint run_items (tbl : list (N * list N)) (lim : N) (s : state) (its : list item) : list Z :=
   match its with
   | [] => []
-  | ISkip :: t => 9%Z :: run_items tbl s t
+  | ISkip :: t => 9%Z :: run_items tbl lim s t
   | IGen pn pay :: t =>
-      let '(s', r) := rx sdg x_unprot x_expand (x_open tbl) x_limit s (SCopy pn pay) in
-      dump r ++ run_items tbl s' t
-  | IForged :: t =>
-      let '(s', r) := rx sdg x_unprot x_expand (x_open tbl) x_limit s SOther in
-      (match r with (0%Z, Some _) => dump r | _ => [1%Z] end) ++ run_items tbl s' t
+      let '(s', r) := rx sdg x_unprot x_expand (x_open tbl) lim s (SCopy pn pay) in
+      dump r ++ run_items tbl lim s' t
+  | IForged f :: t =>
+      let '(s', r) := rx sdg x_unprot x_expand (x_open tbl) lim s (SOther f) in
+      dump_forged r ++ run_items tbl lim s' t
   end.
 
 Definition table_of (its : list item) : list (N * list N) :=
   flat_map (fun i => match i with IGen pn pay => [(pn, pay)] | _ => [] end) its.
 
 Definition run (c : list Z) : list Z :=
-  let its := items_of c in run_items (table_of its) init its.
+  let its := items_of c in run_items (table_of its) (case_limit c) init its.
 
 (* ---- the property as an executable judgement ----
-   a garbled / forged datagram never yields a payload; an unmodified copy yields exactly the
-   sealed packet number and payload, and no packet number is processed twice; a copy whose packet
-   number is above everything processed so far is processed *)
-Fixpoint judge_items (proc : list N) (its : list item) (o : list Z) : bool :=
+   a garbled / forged datagram never yields a payload, and closes the connection only when at least
+   integrity_limit non-authentic datagrams have been delivered; an unmodified copy yields exactly
+   the sealed packet number and payload, and no packet number is processed twice; a copy whose
+   packet number is above everything processed so far is processed (while the connection is open) *)
+Fixpoint judge_items (lim : N) (proc : list N) (nf : N) (cl : bool) (its : list item) (o : list Z) : bool :=
   match its with
   | [] => match o with [] => true | _ => false end
-  | ISkip :: t => match o with 9%Z :: o' => judge_items proc t o' | _ => false end
-  | IForged :: t => match o with 1%Z :: o' => judge_items proc t o' | _ => false end
+  | ISkip :: t => match o with 9%Z :: o' => judge_items lim proc nf cl t o' | _ => false end
+  | IForged _ :: t =>
+      match o with
+      | 1%Z :: o' => negb cl && judge_items lim proc (nf + 1) cl t o'
+      | 6%Z :: o' => negb cl && (lim <=? nf + 1) && judge_items lim proc (nf + 1) true t o'
+      | 5%Z :: o' => cl && judge_items lim proc nf cl t o'
+      | _ => false
+      end
   | IGen pn pay :: t =>
       match o with
       | 0%Z :: pn' :: plen :: o' =>
           let k := Z.to_nat plen in
-          (zN pn' =? pn) && (0 <=? pn')%Z && Nat.eqb k (length pay) && Nat.leb k (length o')
+          negb cl && (zN pn' =? pn) && Nat.eqb k (length pay) && Nat.leb k (length o')
           && eqb_bytes (map zN (firstn k o')) pay
-          && forallb (fun z => (0 <=? z)%Z) (firstn k o')
           && negb (mem_N pn proc)
-          && judge_items (pn :: proc) t (skipn k o')
+          && judge_items lim (pn :: proc) nf cl t (skipn k o')
+      | 5%Z :: o' => cl && judge_items lim proc nf cl t o'
+      | 6%Z :: _ => false
       | code :: o' =>
-          negb (code =? 0)%Z
-          && (match max_list proc with None => false | Some m => pn <=? m end)
-          && judge_items proc t o'
+          negb (code =? 0)%Z && negb cl && (match max_list proc with None => false | Some m => pn <=? m end)
+          && judge_items lim proc nf cl t o'
       | [] => false
       end
   end.
 
-Definition judge (c o : list Z) : bool := judge_items [] (items_of c) o.
+Definition judge (c o : list Z) : bool := judge_items (case_limit c) [] 0 false (items_of c) o.
